@@ -40,16 +40,45 @@ def shrink(case, fails_fn):
     return dict(case, ops=ops)
 
 
+def _adds(lines):
+    return [('add', l) for l in lines]
+
+
+# hand-made histories that run first on every check: shapes in which one removal deletes several entries of one
+# back-reference list (hairpins next to other links, an item listed twice, nested sets, a segment visited twice by a path)
+CORPUS = [
+    ('gfa1', _adds(['S\tA\t*', 'S\tB\t*', 'L\tA\t+\tB\t+\t*', 'L\tA\t+\tA\t-\t*']) + [('rm', 'A')]),
+    ('gfa1', _adds(['S\tA\t*', 'S\tB\t*', 'L\tA\t+\tA\t-\t*', 'L\tA\t+\tB\t+\t*', 'L\tB\t-\tA\t-\t3M']) + [('rm', 'A')]),
+    ('gfa1', _adds(['S\tA\t*', 'S\tB\t*', 'L\tA\t+\tB\t+\t*', 'L\tB\t+\tA\t+\t*', 'P\tp\tA+,B+,A+\t*,*']) + [('rm', 'A')]),
+    ('gfa1', _adds(['S\tA\t*', 'S\tB\t*', 'L\tA\t+\tB\t+\t*', 'P\tp\tA+,B+\t*', 'P\tq\tA+,B+\t*', 'C\tA\t+\tB\t+\t0\t*']) + [('rm', 'B'), ('rm', 'A')]),
+    ('gfa2', _adds(['S\tA\t10\t*', 'S\tB\t10\t*', 'U\tu1\tA A B']) + [('rm', 'A')]),
+    ('gfa2', _adds(['S\tA\t10\t*', 'U\tu2\tu1 A', 'U\tu1\tA']) + [('rm', 'A')]),
+    ('gfa2', _adds(['S\tA\t10\t*', 'U\tu1\tA', 'U\tu2\tu1 A', 'U\tu3\tu2 u1 A']) + [('rm', 'A')]),
+    ('gfa2', _adds(['S\tA\t10\t*', 'S\tB\t10\t*', 'E\te1\tA+\tB+\t7\t10$\t0\t3\t*', 'E\te2\tA+\tA-\t7\t10$\t7\t10$\t*',
+                    'O\to1\tA+ e1+ B+', 'U\tu1\te1 e2 o1']) + [('rm', 'A')]),
+    ('gfa2', _adds(['S\tA\t10\t*', 'S\tB\t10\t*', 'G\tg1\tA+\tA-\t5\t*', 'G\tg2\tA+\tB+\t5\t*', 'F\tA\tr1+\t0\t3\t0\t3\t*',
+                    'F\tA\tr1+\t5\t8\t0\t3\t*']) + [('rm', 'A')]),
+    ('gfa2', _adds(['S\tA\t10\t*', 'S\tB\t10\t*', 'E\te1\tA+\tB+\t7\t10$\t0\t3\t*', 'O\to1\te1+ B+ e1- A+']) + [('rm', 'e1')]),
+    ('gfa1', _adds(['S\tA\t*', 'S\tB\t*', 'L\tA\t+\tB\t+\t*', 'P\tp\tA+,B+\t*']) + [('rename', 'A', 'a b'), ('rename', 'B', 'A'), ('rename', 'B', 'y+,z')], 3),
+    ('gfa2', _adds(['S\tA\t10\t*', 'S\tB\t10\t*', 'E\te1\tA+\tB+\t7\t10$\t0\t3\t*', 'U\tu1\tA e1']) + [('rename', 'A', 'a b'), ('rename', 'e1', 'A'), ('rename', 'u1', '')], 3),
+]
+
+
 def run_histories(ctx, prop, deep, model_ok, n_quick, n_deep, step_oracle, nontrivial, gen_ops=None, known=None):
     """step_oracle(G, op, outcome, obs_before, obs_after, removed) -> list of (what, expected, observed)"""
     g = impl.gfapy()
     rng = ctx.rng
     n = n_deep if deep else n_quick
     terms, metas = [], []
-    for i in range(n):
-        ver = 'gfa1' if i % 2 else 'gfa2'
-        vl = rng.choice([1, 1, 2, 3])
-        ops = (gen_ops or GL.gen_history)(rng, ver)
+    for i in range(-len(CORPUS), n):
+        if i < 0:
+            entry = CORPUS[i + len(CORPUS)]
+            ver, ops = entry[0], entry[1]
+            vl = entry[2] if len(entry) > 2 else 1
+        else:
+            ver = 'gfa1' if i % 2 else 'gfa2'
+            vl = rng.choice([1, 1, 2, 3])
+            ops = (gen_ops or GL.gen_history)(rng, ver)
         case = {'kind': 'history', 'version': ver, 'vlevel': vl, 'ops': ops}
         ctx.count(case, nontrivial(ops))
         kp = GL.known_pattern(ops)
